@@ -105,16 +105,22 @@ PLANS['C14'] = Plan(
                  'SegmentChainer.chain precondition: every non-empty segment has at least one aligned pair and EmptyAlignmentSegment has no positions (established by the segment factory, C13)'],
 )
 
+SGP = 'src/alignment/segments.py::'
 PLANS['C15'] = Plan(
-    'C15', [], 'other',
-    "BOUNDED (run-time contract monitor on the real AlignmentSegmentConflictResolver.resolveConflicts and on every "
+    'C15', [SGP + '_SegmentPairWithConflict.__trimSegmentsAtOptimalPosition', SGP + '_SegmentPairWithConflict.resolveConflict',
+            SGP + 'AlignmentSegment.getReferenceLabels', SGP + 'AlignmentSegment.getQueryLabels', SEG + 'AlignmentSegment.create'], 'other',
+    "Deductive links (proved for all inputs): the equal-index cut __trimSegmentsAtOptimalPosition cuts both conflicting sub-segments at the same label count m, each "
+    "cut position lying directly before that segment's OWN m-th label (left keeps its first m labels, right drops its first m; at the edges one whole conflict "
+    "zone is removed and the other segment kept unchanged); getReferenceLabels / getQueryLabels return well-formed label tables (one strictly increasing index per "
+    "label inside the sub-segment), which discharges the precondition of the cut in resolveConflict; every trimmed segment is rebuilt by AlignmentSegment.create "
+    "(score = sum of what is left). The subtraction itself, slice() and the numpy merge index are assumed contracts here. BOUNDED (run-time contract monitor on the real AlignmentSegmentConflictResolver.resolveConflicts and on every "
     "checkForConflicts(...).resolveConflict() it performs): every resulting segment is a contiguous sub-run (element identity) of one input segment "
     "with score = sum of what is left; pairs outside the overlap are kept; no two resulting segments share a label or cross. Inputs are produced by the real "
     "engine, scorer and segment factory from generated label data with 2-6 nearby seed peaks, both strands, four maxDistance values. The last clause is "
     "genuinely violated by the pinned code in two ways that are recorded as known findings, each pinned to its mechanism (K1 pair never compared, K2 equal-index "
     "cut on unequal label lists) and replayed from a minimal witness on every run; any other failure of that clause is a violation.",
     bounded=_lazy('bcheck.c15', 'bounded'), replay=_lazy('bcheck.c15', 'replay'),
-    technique='bounded run-time contract monitor on the real functions (deductive part: see functions_under_contract)',
+    technique='deductive contracts (own VC generator + z3) for the equal-index cut and the label tables; bounded run-time contract monitor on the real resolver',
 )
 
 WCF = 'src/workflow_coordinator.py::_WorkflowCoordinator.'
@@ -133,7 +139,8 @@ PLANS['C07'] = Plan(
 OMP = 'src/correlation/optical_map.py::OpticalMap.'
 PLANS['C01'] = Plan(
     'C01', [AP + 'deduplicate', AP + '__deduplicateByKey', OMP + 'getPositionsWithSiteIds', AE + '__getAlignedPairs',
-            SF + '_AlignmentSegmentBuilder.getSegments', 'src/alignment/segment_chainer.py::SegmentChainer.chain'], 'other',
+            SF + '_AlignmentSegmentBuilder.getSegments', 'src/alignment/segment_chainer.py::SegmentChainer.chain',
+            'src/alignment/segments.py::_SegmentPairWithConflict.__trimSegmentsAtOptimalPosition'], 'other',
     "Deductive links (proved for all inputs): label numbers handed to the pairing step are shift+1..shift+n of the named map (getPositionsWithSiteIds), "
     "candidates pair window labels with query labels (__getAlignedPairs), after the two de-duplication passes a peak's pairs are one-to-one on both label "
     "numbers with strictly increasing reference labels (deduplicate), segments are contiguous runs of that list (segment builder), the chain is a "
@@ -145,11 +152,12 @@ PLANS['C01'] = Plan(
     technique='deductive per-function contracts (own VC generator + z3) for the per-peak links; bounded run-time contract on every record and candidate',
 )
 PLANS['C02'] = Plan(
-    'C02', [OMP + 'trim', OMP + 'getPositionsWithSiteIds', AR + 'create'], 'other',
+    'C02', [OMP + 'trim', OMP + 'getPositionsWithSiteIds', AR + 'create', AR + 'getUnalignedFragments'], 'other',
     "Deductive links: OpticalMap.trim (first label at 0, distances kept, length = last-first+1, id kept) and getPositionsWithSiteIds (label numbers refer to the "
     "whole molecule via shift; reverse strand mirrors about length-1, i.e. measures from the last label of a trimmed query); AlignmentResultRow.create derives "
     "RefStart/RefEnd as the smallest/largest reference coordinate of any pair and QryStart/QryEnd as the query coordinates of those two pairs, swapped on the "
-    "reverse strand, and passes ids/lengths/strand through. BOUNDED: every record of every "
+    "reverse strand, and passes ids/lengths/strand through; every fragment handed to the second pass (getUnalignedFragments) carries the whole query's "
+    "id and length, is a slice of the query's positions and has shift = slice start, so second-pass label numbers refer to the whole query. BOUNDED: every record of every "
     "file of the real program is re-derived from the CMAP *text* with independent parsers (ids, lengths, start/end coordinates per orientation, entry ids, "
     "second-pass records numbered in whole-query labels).",
     bounded=_lazy('bcheck.c02', 'bounded'), replay=_lazy('bcheck.c02', 'replay'),
@@ -159,7 +167,8 @@ PLANS['C04'] = Plan(
     'C04', [SEG + 'AlignmentSegment.create', SF + '_AlignmentSegmentBuilder.getSegments', AE + '__getAlignedPairs', AP + 'getScoredPosition',
             'src/alignment/alignment_position.py::NotAlignedPosition.getScoredPosition',
             'src/alignment/alignment_position_scorer.py::AlignmentPositionScorer.getScoredPositions', AR + 'create',
-            'src/workflow_coordinator_factory.py::WorkflowCoordinatorFactory.create'], 'other',
+            'src/workflow_coordinator_factory.py::WorkflowCoordinatorFactory.create',
+            'src/alignment/segments.py::_SegmentPairWithConflict.__trimSegmentsAtOptimalPosition'], 'other',
     "Deductive links: a candidate's offset is query position - (reference position - seed) and within maxDistance (__getAlignedPairs), a pair scores sp - dp*|offset| and an unpaired label su (getScoredPosition x2, getScoredPositions element-wise), a segment's score is "
     "the sum of its members' scores (AlignmentSegment.create; every trim goes through it), builder segments are contiguous runs of the scored list, a row's "
     "confidence is the sum of its segment scores (AlignmentResultRow.create), and every command-line value reaches the component that uses it "
@@ -257,9 +266,11 @@ PLANS['C11'] = Plan(
 )
 
 PLANS['C10'] = Plan(
-    'C10', [], 'exploration',
+    'C10', [AR + 'getUnalignedFragments', 'src/alignment/alignment_results.py::AlignmentResults.filterOutSubsequentAlignmentsForSingleQuery'], 'exploration',
     "Decided by a BOUNDED differential run-time contract on the real program: file order and id filters go through pandas, outside any contract within "
-    "reach. The records of a run on the full files are compared per query with runs on subsets, permutations, row-shuffled files and -qId/-rId selections.",
+    "reach. The records of a run on the full files are compared per query with runs on subsets, permutations, row-shuffled files and -qId/-rId selections. "
+    "Deductive contributions reported alongside: the only cross-query access, the lookup in getUnalignedFragments, returns the map with the row's own query id "
+    "wherever it sits in the list; the per-query filter groups by query id only.",
     bounded=_lazy('bcheck.c10', 'bounded'), replay=_lazy('bcheck.c10', 'replay'),
     technique='bounded differential run-time contract on the real program (variants of the same input)',
 )
